@@ -154,7 +154,7 @@ def gen_plan(rng, index, tier):
     coupling = rng.random() < 0.4
     if coupling:
         st["tightCoupling"] = True
-        st["tightCouplingMaxNumIters"] = rng.randint(1, 4)
+        st["tightCouplingMaxNumIters"] = rng.choice([0, 1, 2, 3, 4, 4])  # (0: coupling requested, no iteration allowed)
         if rng.random() < 0.4:
             st["cyclesSkipTightCouplingInteraction"] = sorted(rng.sample(range(n), rng.randint(1, n)))
         tcs = {}
